@@ -28,6 +28,10 @@ import (
 
 type scGuards map[string]map[string]bool // field -> set of guard strings
 
+// scDecls: the method declarations of the program (set by scanSizeCond); scDepth bounds the descent into helpers.
+var scDecls = map[*types.Func]*ast.FuncDecl{}
+var scDepth = 0
+
 func scCollect(info *types.Info, fd *ast.FuncDecl) scGuards {
 	res := scGuards{}
 	if fd.Recv == nil || len(fd.Recv.List) == 0 || len(fd.Recv.List[0].Names) == 0 {
@@ -77,6 +81,32 @@ func scCollect(info *types.Info, fd *ast.FuncDecl) scGuards {
 	var walk func(n ast.Node, guards []string)
 	mention := func(n ast.Node, guards []string) {
 		ast.Inspect(n, func(x ast.Node) bool {
+			// an unexported helper of the receiver (op.writeMetaData(w)): what it mentions, under its own conditions
+			if call, ok := x.(*ast.CallExpr); ok && scDepth < 2 {
+				if hs, ok := unparen(call.Fun).(*ast.SelectorExpr); ok {
+					if id, ok := unparen(hs.X).(*ast.Ident); ok && info.Uses[id] == recvObj && !ast.IsExported(hs.Sel.Name) {
+						if m := calleeFunc(info, call); m != nil {
+							if hd := scDecls[funcOrigin(m)]; hd != nil && hd != fd {
+								scDepth++
+								sub := scCollect(info, hd)
+								scDepth--
+								for f, gs := range sub {
+									if res[f] == nil {
+										res[f] = map[string]bool{}
+									}
+									for g := range gs {
+										all := append(append([]string{}, guards...), g)
+										if g == "" {
+											all = guards
+										}
+										res[f][strings.Join(all, " && ")] = true
+									}
+								}
+							}
+						}
+					}
+				}
+			}
 			se, ok := x.(*ast.SelectorExpr)
 			if !ok {
 				return true
@@ -157,6 +187,14 @@ func scanSizeCond(c *core.Ctx) []ob {
 		pk          *packages.Package
 	}
 	byType := map[string]*pair{}
+	scDecls = map[*types.Func]*ast.FuncDecl{}
+	c.FuncDecls(func(pk *packages.Package, file *ast.File, fd *ast.FuncDecl) {
+		if fd.Body != nil && fd.Recv != nil {
+			if o, ok := pk.TypesInfo.Defs[fd.Name].(*types.Func); ok {
+				scDecls[funcOrigin(o)] = fd
+			}
+		}
+	})
 	c.FuncDecls(func(pk *packages.Package, file *ast.File, fd *ast.FuncDecl) {
 		if fd.Body == nil || fd.Recv == nil || fileIsTestSupport(c.Program, fd.Pos()) || inExamples(pk) {
 			return
